@@ -104,6 +104,16 @@ Theorem C05_gc_parent : forall fuel s n s' out,
 Proof. exact gc_parent. Qed.
 Print Assumptions C05_gc_parent.
 
+(* ---- lock_ covers the tree: after lock_ r on an unlocked r (or on an r already locked through lock_), every node reachable from r
+        is flagged, and locking changes no entry *)
+Theorem C05_lock_covers_tree : forall fuel s r s',
+  Inv s -> exists_live s r = true ->
+  (is_locked fuel (hp s) r = Some false \/ (flag_true (hp s) r = true /\ no_mm (hp s) r)) ->
+  step fuel s (OLock r) = Some (s', Done) ->
+  tree_locked (hp s') r /\ tree_unchanged (hp s) (hp s') r.
+Proof. exact lock_covers_tree. Qed.
+Print Assumptions C05_lock_covers_tree.
+
 (* ---- in-place value writes stay possible under lock and change nothing but the value *)
 Theorem C05_inplace_write_ok : forall fuel s n k nd l,
   is_td s n = true -> lookup (hp s) n = Some nd -> ents_get (ents nd) k = Some (RLeaf l) ->
